@@ -660,6 +660,26 @@ func (w *c08World) exec(op string) string {
 			default: // the receiver is not reading any more
 			}
 		}
+	case "ack": // the cluster behind incarnation k's stream acknowledges everything it has received on it (or `ack k w`)
+		if k := n(1); k < len(w.incs) && !w.incs[k].broken {
+			wv := int64(0)
+			if len(f) > 2 {
+				wv = int64(n(2))
+			} else if sent := w.incs[k].srv.Sent(); len(sent) > 0 {
+				wv = sent[len(sent)-1].GetMessages().GetExclusiveHighWatermark()
+			}
+			synctest.Wait()
+			select {
+			case w.incs[k].srv.in <- ev[repReq]{v: ackReq(wv)}:
+			default:
+			}
+		}
+	case "sendfail": // from now on the Send of receiver k's stream to its source cluster fails (the source went away without a reset)
+		if k := n(1); k < len(w.incs) && w.incs[k].cli != nil {
+			w.incs[k].cli.mu.Lock()
+			w.incs[k].cli.sendErr = errors.New("c08: injected send failure (source gone)")
+			w.incs[k].cli.mu.Unlock()
+		}
 	case "settle":
 		synctest.Wait()
 		time.Sleep(2 * time.Second)
@@ -1067,13 +1087,30 @@ func TestC08(t *testing.T) {
 		if i < 3 {
 			e.Sample(r.ops)
 		}
-		e.Emit(begin, "ok")
+		// traces with ops outside the registry model's language (acknowledgements, a failing upstream Send) are judged by the
+		// property monitor alone: their lines go to the protocol file as comments
+		monitorOnly := false
+		for _, op := range r.ops {
+			if f := strings.Fields(op); f[0] == "ack" || f[0] == "sendfail" {
+				monitorOnly = true
+			}
+		}
+		if monitorOnly {
+			e.Count("trace_monitor_only")
+			e.Emit("# "+begin, "#")
+		} else {
+			e.Emit(begin, "ok")
+		}
 		for j, op := range r.ops {
 			obs := "missing"
 			if j < len(r.obs) {
 				obs = r.obs[j]
 			}
-			e.Emit(op, obs)
+			if monitorOnly {
+				e.Emit("# "+op+"  => "+obs, "#")
+			} else {
+				e.Emit(op, obs)
+			}
 			e.Count("op_" + strings.Fields(op)[0])
 			if f := strings.Fields(op); f[0] == "pause" {
 				e.Count("pause_" + f[1])
